@@ -986,6 +986,13 @@ impl Parser {
             result.op = Some(Op::negate(op));
         }
 
+        if let Some(logical_op) = &expr.logical_op {
+            result.logical_op = Some(match logical_op {
+                LogicalOp::And => LogicalOp::Or,
+                LogicalOp::Or => LogicalOp::And,
+            });
+        }
+
         if let Some(right) = &expr.right {
             result.right = Some(Box::from(Self::negate_expr_op(right)));
         }
